@@ -212,7 +212,9 @@ class C12(Prop):
     rule = ("one evaluation = one generated hierarchical design (nets spanning several levels, nets touching "
             "only instance pins, only ports or nothing, shared definitions reached by several paths, "
             "pass-through cells, unconnected sides) and up to 24 sampled start points of every kind (hierarchical "
-            "wire, cable, pin, port) traced with selection ALL / INSIDE / OUTSIDE and get_hpins; each answer is "
+            "wire, cable, pin, port) traced with selection ALL / INSIDE / OUTSIDE and get_hpins, with connection edits "
+            "between traces (a pin traded, added or dropped by the single or the bulk disconnect call, instance pins "
+            "named by their stored object or by a stand-in, refused double connections, re-pointed instances); each answer is "
             "compared with the equivalence class of an independent union-find elaboration; non-trivial = at "
             "least one trace whose expected net spans more than one level; distinct = distinct (event-kind "
             "multiset, final fingerprint) pairs")
